@@ -98,8 +98,24 @@ func solve(dir string, idx int, query string, quickT, fullT time.Duration, wantS
 		name, st, out string
 		secs          float64
 	}
-	ch := make(chan r, len(solvers))
+	ch := make(chan r, len(solvers)+1)
 	var wg sync.WaitGroup
+	// a fourth racer: z3 on the query with the quantified background axioms removed. Dropping assumptions can only
+	// make a query more satisfiable, so an `unsat` answer is valid for the full query (any other answer is ignored).
+	if lite := liteQuery(query); lite != "" {
+		liteFile := filepath.Join(dir, fmt.Sprintf("q%05d.lite.smt2", idx))
+		os.WriteFile(liteFile, []byte(lite), 0o644)
+		defer os.Remove(liteFile)
+		wg.Add(1)
+		go func() {
+			defer wg.Done()
+			st, out, secs := runSolver(ctx, solvers[0], liteFile, fullT)
+			if st != "unsat" {
+				st, out = "unknown", ""
+			}
+			ch <- r{"z3-new(lite)", st, out, secs}
+		}()
+	}
 	for i, s := range solvers {
 		_ = i
 		wg.Add(1)
@@ -121,6 +137,9 @@ func solve(dir string, idx int, query string, quickT, fullT time.Duration, wantS
 			cancel()
 			return res
 		}
+		if strings.HasSuffix(x.name, "(lite)") {
+			continue // the pruned query only counts when it proves the obligation
+		}
 		if !seen || rank[x.st] > rank[best.st] {
 			best = x
 			seen = true
@@ -128,4 +147,81 @@ func solve(dir string, idx int, query string, quickT, fullT time.Duration, wantS
 	}
 	res.Status, res.Solver, res.Seconds, res.Output = best.st, best.name, best.secs, best.out
 	return res
+}
+
+
+// liteQuery: the query restricted to the quantified assertions that talk about a local value of the goal.
+// Kept: every declaration and quantifier-free assertion; a quantified assertion only if it mentions one of the
+// SSA-local symbols (|name!N|, no component or epoch marker) that occur in the goal - in practice the assumed
+// loop invariants and callee postconditions. Dropped: background axioms (strings, closed heap, frames).
+func liteQuery(query string) string {
+	i := strings.Index(query, bodyMarker)
+	if i < 0 {
+		return ""
+	}
+	lines := strings.Split(strings.TrimRight(query, "\n"), "\n")
+	// the goal is the last assertion
+	goal := ""
+	for k := len(lines) - 1; k >= 0; k-- {
+		if strings.HasPrefix(lines[k], "(assert") {
+			goal = lines[k]
+			break
+		}
+	}
+	locals := map[string]bool{}
+	for _, sym := range quotedSymbols(goal) {
+		if isLocalSymbol(sym) {
+			locals[sym] = true
+		}
+	}
+	if len(locals) == 0 {
+		return ""
+	}
+	var sb strings.Builder
+	dropped := 0
+	for _, l := range lines {
+		if l != goal && strings.HasPrefix(l, "(assert") && (strings.Contains(l, "(forall ") || strings.Contains(l, "(exists ")) {
+			keep := false
+			for _, sym := range quotedSymbols(l) {
+				if locals[sym] {
+					keep = true
+					break
+				}
+			}
+			if !keep {
+				dropped++
+				continue
+			}
+		}
+		sb.WriteString(l)
+		sb.WriteByte('\n')
+	}
+	if dropped == 0 {
+		return ""
+	}
+	return sb.String()
+}
+
+func quotedSymbols(l string) []string {
+	var out []string
+	for {
+		i := strings.IndexByte(l, '|')
+		if i < 0 {
+			return out
+		}
+		j := strings.IndexByte(l[i+1:], '|')
+		if j < 0 {
+			return out
+		}
+		out = append(out, l[i:i+j+2])
+		l = l[i+j+2:]
+	}
+}
+
+func isLocalSymbol(sym string) bool {
+	s := strings.Trim(sym, "|")
+	if strings.ContainsAny(s, ":@$") || !strings.Contains(s, "!") {
+		return false
+	}
+	return !strings.HasPrefix(s, "lit!")
 }
